@@ -69,6 +69,31 @@ def h_definition(env, N, mask, L, kind='list'):
         env.goal('coefficients_untouched', unchanged(cs_before, obj.cs))
 
 
+def h_definition_views(env, N, mask, form):
+    """transform_by on a list whose table is a non-contiguous / shared view (see common.list_in_layout); mask given
+    as a boolean array or as a Python list of booleans"""
+    M = Mods(env)
+    n = N if mask is None else sum(mask)
+    mg = env.bits('map', (2 * n, 2 * n))
+    mp = env.phases('map_ps', (2 * n,))
+    m = M.st.CliffordMap(mg.copy(), mp.copy())
+    L = 4 if form == 'strided' else 2
+    gs = env.bits('gs', (L, 2 * N))
+    ps = env.phases('ps', (L,))
+    obj, rows, shift = list_in_layout(env, M, gs, ps, form)
+    mk = None if mask is None else np.array(mask, dtype=bool)
+    r = env.run(lambda: obj.transform_by(m) if mk is None else obj.transform_by(m, mk))
+    env.goal('no_exception', b_not(r.raised))
+    if r.value is None:
+        return
+    tg, tp = (mg, mp) if mask is None else embedded_table(mg, mp, mask, N)
+    for k, j in enumerate(rows):
+        ge, pe = ref.ref_transform(gs[j], (ps[j] + shift) % 4, tg, tp)
+        env.goal('row%d_string' % k, arr_eq(obj.gs[k], ge))
+        env.goal('row%d_phase' % k, eq(obj.ps[k], pe))
+    env.goal('map_unchanged', b_and(arr_eq(m.gs, mg), arr_eq(m.ps, mp)))
+
+
 def h_embed(env, N, mask):
     """identity_map(N).embed(m, mask) is the reference embedding; transform_by(m, mask) == transform_by(embedded)"""
     M = Mods(env)
@@ -190,6 +215,12 @@ def jobs(tier):
             if m is not None:
                 J.append(dict(harness=('c03', 'h_embed'), params=dict(N=N, mask=m)))
         J.append(dict(harness=('c03', 'h_rotation_map_acts_as_rotation'), params=dict(N=N)))
+        if N in (2, 3):
+            for form in LAYOUTS[1:]:
+                for m in (None, [True] + [False] * (N - 1), [False] * (N - 1) + [True]) + (([True, False, True],) if N == 3 else ()):
+                    if N == 3 and m is None:
+                        continue
+                    J.append(dict(harness=('c03', 'h_definition_views'), params=dict(N=N, mask=m, form=form)))
         if N <= 3:
             for how in ('self', 'slice_head', 'slice_tail', 'row'):
                 J.append(dict(harness=('c03', 'h_alias'), params=dict(N=N, how=how)))
